@@ -15,6 +15,10 @@ pub fn in_range(kind: u8, n: usize, v: i64) -> bool {
     }
 }
 
+struct VSize { magic: u64, sized: bool }
+static mut VS: VSize = VSize { magic: 0x5653_5eed_c0de_0022, sized: false };
+fn arg_was_sized() -> bool { unsafe { VS.sized } }
+
 /// C04-a: check_and_constrain_argument accepts exactly the range of the type and keeps the value.
 fn constrain(kind: u8, n: usize, v: i64, kf_region: bool) -> bool {
     reset_report_model();
@@ -27,7 +31,11 @@ fn constrain(kind: u8, n: usize, v: i64, kf_region: bool) -> bool {
         _ => asm::RuleParameterType::Integer(n),
     };
     let mut report = diagn::Report::new();
-    let r = asm::resolver::verif_hooks::check_and_constrain_argument(&mut report, sp(), expr::Value::make_integer(BigInt::new(v, None)), typ);
+    // the argument may already carry a declared size (a typed parameter forwarded to another rule, a sized
+    // literal): the range decision is about its value, whatever that size is
+    let vsize: Option<usize> = if kani::any() { Some(kani::any::<u8>() as usize) } else { None };
+    unsafe { VS.sized = vsize.is_some(); }
+    let r = asm::resolver::verif_hooks::check_and_constrain_argument(&mut report, sp(), expr::Value::make_integer(BigInt::new(v, vsize)), typ);
     let want = in_range(kind, n, v);
     let accepted = matches!(r, Ok(expr::Value::Integer(_)));
     match r {
@@ -59,6 +67,7 @@ modelled! {
         let n: usize = kani::any(); kani::assume(n <= 16);
         let v: i32 = kani::any(); kani::assume(v >= -(1 << 17) - 4 && v <= (1 << 17) + 4);
         let acc = constrain(0, n, v as i64, false);
+        kani::cover!(acc && arg_was_sized() && n >= 1, "accepted argument that already carried a declared size");
         kani::cover!(acc && n >= 1 && v as i64 == pow2(n) - 1, "largest unsigned value accepted");
         kani::cover!(!acc && v as i64 == pow2(n), "first value above the unsigned range rejected");
         kani::cover!(!acc && v == -1, "negative value rejected by an unsigned type");
@@ -70,6 +79,7 @@ modelled! {
         let n: usize = kani::any(); kani::assume(n >= 1 && n <= 16);
         let v: i32 = kani::any(); kani::assume(v >= -(1 << 17) - 4 && v <= (1 << 17) + 4);
         let acc = constrain(1, n, v as i64, false);
+        kani::cover!(acc && arg_was_sized() && v < 0, "accepted negative argument that already carried a declared size");
         kani::cover!(acc && v as i64 == pow2(n - 1) - 1, "largest signed value accepted");
         kani::cover!(acc && v as i64 == -pow2(n - 1), "most negative signed value accepted");
         kani::cover!(!acc && v as i64 == pow2(n - 1), "first value above the signed range rejected");
